@@ -37,7 +37,7 @@ def ptrAt (v : View) (off : Nat) : Nat := leN v.b off v.fmt.ptrSize
 -- src: debug.rs:Debug::try_from   (&[IMAGE_DEBUG_DIRECTORY]: 28 bytes each, align 4)
 def debugTryFrom (v : View) : Out Ref :=
   match v.dataDir 6 with
-  | none => .err .bounds                                   -- data_directory().get(DEBUG).ok_or(Bounds)
+  | none => .err .null                                     -- data_directory().get(DEBUG).ok_or(Null)
   | some (va, size) =>
     if size % 28 ≠ 0 then .err .invalid
     else v.dervaSlice (.rva va) 28 4 (size / 28)
@@ -193,7 +193,7 @@ def pgoItems (b : Bytes) (image : Ref) : Out (List PgoItem) :=
 -- src: tls.rs:Tls::try_from
 def tlsTryFrom (v : View) : Out Ref :=
   match v.dataDir 9 with
-  | none => .err .bounds
+  | none => .err .null
   | some (va, _) => v.derva (.rva va) (tlsSize v.fmt) (tlsAlign v.fmt)
 
 def tlsStart (v : View) (t : Ref) : Nat := ptrAt v t.off
@@ -220,7 +220,7 @@ def tlsCallbacks (v : View) (t : Ref) : Out Ref :=
 -- src: load_config.rs:LoadConfig::try_from
 def lcTryFrom (v : View) : Out Ref :=
   match v.dataDir 10 with
-  | none => .err .bounds
+  | none => .err .null
   | some (va, _) => v.derva (.rva va) (lcSize v.fmt) (lcAlign v.fmt)
 
 def lcDeclaredSize (v : View) (t : Ref) : Nat := le32 v.b t.off
@@ -240,7 +240,7 @@ def lcSeHandlerTable (v : View) (t : Ref) : Out Ref :=
 -- src: exception.rs:Exception::try_from    (&[RUNTIME_FUNCTION]: 12 bytes each, align 4)
 def excTryFrom (v : View) : Out Ref :=
   match v.dataDir 3 with
-  | none => .err .bounds
+  | none => .err .null
   | some (va, size) =>
     if size % 12 ≠ 0 then .err .invalid
     else v.dervaSlice (.rva va) 12 4 (size / 12)
@@ -331,7 +331,7 @@ def uwFrameOffset (b : Bytes) (image : Ref) : Nat := byteAt b (image.off + 3) / 
 def securityTryFrom (v : View) : Out Ref :=
   if v.kind ≠ .file then .err .unmapped
   else match v.dataDir 4 with
-    | none => .err .bounds
+    | none => .err .null
     | some (va, size) =>
       if va = 0 then .err .null
       else if va % 8 ≠ 0 ∨ size % 8 ≠ 0 then .err .misaligned
